@@ -57,7 +57,7 @@ class Acc(object):
             self.classes[c] += w
         if law.nontrivial(case):
             if distinct_by_construction:
-                self.nontrivial_n += w
+                self.nontrivial_n += law.nt_weight(case)
             else:
                 self.digests.add(values.case_digest(case))
         self.ncases = getattr(self, 'ncases', 0) + 1
